@@ -56,9 +56,30 @@ class Prop(BaseProp):
                                         ((1 << 64) - 1, 0), ((1 << 64) - 1, 1 << 63), (100000 + 5000, 1 << 63)]):
             ops = base + ["expire %d %d %s" % (x, grace, sg.mk_hash(rng).hex())]
             cases.append({"id": "e%d" % j, "text": " | ".join(ops), "meta": {"nc": 0, "exports": 0, "expire": True}})
-        return [{"name": "c18", "cases": cases, "timeout": 900, "model_may_be_silent": True}]
+        # mixtures: several shards with distinct content, each exported under its own key, one directory
+        mcases = []
+        for i in range(6 if not big else 20):
+            ngroups = rng.choice([2, 3, 3, 4, 5])
+            ops = []
+            allcas = []
+            for g in range(ngroups):
+                files, cas = sg.gen_shard(rng, rng.randrange(0, 3), rng.randrange(1, 4), "random", max_chunks=5)
+                cas = [c for c in cas if c["chunks"]] or [sg.gen_cas(rng, sg.mk_hash(rng), 3)]
+                allcas += cas
+                key = (b"\0" * 32) if (g == 0 and i % 2 == 0) else sg.mk_hash(rng)
+                ops += [sg.fmt_cas(c) for c in cas] + [sg.fmt_file(f) for f in files] + ["key %s %d" % (key.hex(), rng.choice([7, 7, 6, 4, 3, 0]))] + ["=="]
+            # one query per block, so every group is exercised
+            for c in allcas:
+                s0 = rng.randrange(len(c["chunks"]))
+                ops.append("qd %s" % ",".join(x[0].hex() for x in c["chunks"][s0:]))
+            ops.append("qd %s" % sg.mk_hash(rng).hex())
+            mcases.append({"id": "mix%d" % i, "text": " | ".join(ops), "meta": {"nc": len(allcas), "exports": ngroups, "mix": True}})
+        return [{"name": "c18", "cases": cases, "timeout": 900, "model_may_be_silent": True},
+                {"name": "c18m", "cases": mcases, "model": False, "timeout": 600}]
 
     def compare(self, stream, case, io, mo):
+        if stream != "c18":
+            return None
         a = [o for o in io if o.startswith("exp") and " qd" not in o and not o.startswith("expire")]
         if a != mo:
             for x, y in zip(a, mo):
@@ -77,6 +98,9 @@ class Prop(BaseProp):
         for o in io:
             if o.startswith("expire"):
                 counters["expiry_" + o.replace(" ", "_")] = counters.get("expiry_" + o.replace(" ", "_"), 0) + 1
+            elif o.startswith("qd"):
+                k = "mixture_queries_" + ("hit" if not o.endswith("keyed=0") else "miss")
+                counters[k] = counters.get(k, 0) + 1
             elif " qd" in o:
                 k = "queries_" + ("same" if o.split("orig=")[1].split(" ")[0] == o.split("keyed=")[1] else "different_candidates")
                 counters[k] = counters.get(k, 0) + 1
